@@ -53,7 +53,7 @@ def module_spans(s, m):
 FN_RX = r'^[ \t]*(?:pub(?:\([a-z]+\))? )?(?:open |closed |uninterp )?(?:const )?(?:spec |proof |broadcast proof |exec )?fn ([A-Za-z_0-9]+)(?:/\*PROPS:([^*]*)\*/)?'
 
 
-def fn_table(s):
+def fn_table(s, keep_external=False):
     """sorted list of (line_no, module_path, fn_name, has_contract, is_exec) for every fn header in the unit"""
     m = code_mask(s)
     mods = module_spans(s, m)
@@ -87,7 +87,7 @@ def fn_table(s):
             k = mk + len('/*BODY*/')
         pre = s[max(0, s.rfind('\n', 0, max(0, s.rfind('\n', 0, pos) - 1)) - 200):pos]
         ext = 'external_body' in pre.split('}')[-1] or 'verifier::external]' in pre.split('}')[-1]
-        if k >= len(s) or s[k] == ';' or ext:
+        if (k >= len(s) or s[k] == ';' or ext) and not (keep_external and ext and props is not None):
             props = None if props is None else props
             out.append((line, enclosing_mods(s, m, pos, mods), mm.group(1), None if True else props, False))
             continue
